@@ -308,6 +308,19 @@ async fn c20_history<TC: Configuration>(cx: &mut Cx, r: &mut Rng, dense: bool) {
                     continue;
                 }
             };
+            // the proof reaches the client over the wire: through the protobuf types and back
+            let p = {
+                use protobuf::Message;
+                use std::convert::TryFrom;
+                let bytes = akd_core::proto::specs::types::HistoryProof::from(&p).write_to_bytes().unwrap();
+                match akd_core::proto::specs::types::HistoryProof::parse_from_bytes(&bytes).map_err(|e| e.to_string()).and_then(|m| akd::HistoryProof::try_from(&m).map_err(|e| e.to_string())) {
+                    Ok(q) => q,
+                    Err(er) => {
+                        cx.fail(format!("C20 {}: the history proof of the tombstoned label does not survive the protobuf encoding: {}", what, er));
+                        continue;
+                    }
+                }
+            };
             let bound = match hp { HistoryParams::Complete => vers.len(), HistoryParams::MostRecent(n) => n.min(vers.len()) };
             let included: Vec<&(u64, Vec<u8>, u64)> = vers.iter().rev().take(bound).collect();
             let any_tomb = included.iter().any(|x| x.2 <= cut && !x.1.is_empty());
